@@ -23,6 +23,16 @@ SETTERS = {
 }
 
 
+class Shouting(str):
+    """A str whose str() and repr() differ from its value."""
+
+    def __str__(self):
+        return "STR:" + str.__str__(self).upper()
+
+    def __repr__(self):
+        return "REPR"
+
+
 def run_case(c):
     res = {"id": c["id"]}
     try:
@@ -35,7 +45,12 @@ def run_case(c):
             grex.RegExpBuilder.from_test_cases([])
             res["out"] = "<no exception>"
             return res
-        b = grex.RegExpBuilder(c["test_cases"]) if c["id"] % 2 == 0 else grex.RegExpBuilder.from_test_cases(c["test_cases"])
+        # the elements are what the strings ARE, not what str() makes of them: every third case passes instances
+        # of a str subclass whose __str__ / __repr__ say something else (as members of `class X(str, Enum)` do)
+        tcs_in = c["test_cases"]
+        if c["id"] % 3 == 1:
+            tcs_in = [Shouting(t) for t in tcs_in]
+        b = grex.RegExpBuilder(tcs_in) if c["id"] % 2 == 0 else grex.RegExpBuilder.from_test_cases(tcs_in)
         if "ops" in c:
             # call history: apply exactly this sequence of setter calls, then build -- in three calling styles that
             # the fluent API makes equivalent: statements on one object; a chain through the returned objects with
